@@ -44,7 +44,8 @@ func init() {
 		Level: "exploration",
 		Rule: "2 charts x 2 generated keys (RSA-2048, ECDSA-P256; fixed-seed generation) signed through Signatory.ClearSign. Per (chart,key) pair, structured families: " +
 			"unmodified (ClearSign output and time-pinned re-signature), missing provenance, 5 renamed/moved archives, every other pair's provenance (also with the archive renamed to match), " +
-			"text/armor splices, a grid of messages validly signed by the trusted key (8 name keys x 12 digest values x 3 second entries) and 7 repeated-entry messages, " +
+			"text/armor splices, keyring-file sequences in one process (one path rewritten in place ring1 -> ring2 -> ring1 for all 12 ordered pairs of keyring contents, and one content under " +
+			"two paths, each for the unmodified pair and for a pair with one archive bit flipped, judged after every step), a grid of messages validly signed by the trusted key (8 name keys x 12 digest values x 3 second entries) and 7 repeated-entry messages, " +
 			"under the keyrings {signer, other+signer, other only, empty}, through 5 entry points. Positional families: every single-bit flip and every truncation length of the " +
 			"provenance file and of the archive (quick: keyring other+signer, Signatory.Verify/VerifyChart/DownloadTo; thorough: all 4 keyrings x 5 entry points, plus every " +
 			"byte of the provenance replaced by each of the 255 other values and every single byte deleted). distinct = (family, pair, mutation position or grid cell, keyring); " +
@@ -60,7 +61,8 @@ func init() {
 			"a panic inside Helm is counted (outcome panic) and is a C17 violation only when the reference accepts the case",
 		},
 		RequiredFloors: []string{"real-clearsign-roundtrip", "accept-baseline", "accept-noop-mutant", "reject-no-block", "reject-bad-signature",
-			"reject-unknown-key", "reject-digest-mismatch", "reject-no-entry", "reject-no-prov", "download-verifyalways-error", "accept-in-subdir"},
+			"reject-unknown-key", "reject-digest-mismatch", "reject-no-entry", "reject-no-prov", "download-verifyalways-error", "accept-in-subdir",
+			"ring-rewrite:accept-then-reject", "ring-rewrite:reject-then-accept", "ring-rewrite:reject-then-reject", "ring-copy:accept-then-accept", "ring-copy:reject-then-reject"},
 	})
 }
 
@@ -85,6 +87,45 @@ type caseIn struct {
 	Root       string `json:"root"` // working directory (signed absolute-path variants refer to it)
 	// Entries restricts the entry points to run (empty = all five).
 	Entries []string `json:"entries,omitempty"`
+	// Steps, when set, makes the case a sequence run in one process: before each
+	// step the keyring file of that step is (re)written, then every entry point
+	// runs and is judged against the reference for the keyring content of that step.
+	Steps []ringStep `json:"steps,omitempty"`
+}
+
+// ringStep is one step of a keyring-file sequence.
+type ringStep struct {
+	Label     string `json:"label"`     // first-use | after-rewrite | after-restore | same-content-other-path
+	Ring      string `json:"ring"`      // keyring kind relative to the signer
+	PathName  string `json:"path_name"` // keyring file is <root>/rings/<PathName>.gpg
+	RingBytes []byte `json:"ring_bytes"`
+}
+
+type stepResult struct {
+	Label string
+	V     verdict
+	Obs   []obs
+}
+
+// execSteps runs a keyring-file sequence; every step is an ordinary case whose
+// keyring file name and content are those of the step.
+func (e *env) execSteps(ci *caseIn) ([]stepResult, []core.Violation) {
+	rd, _ := json.Marshal(ci)
+	var out []stepResult
+	var vs []core.Violation
+	for i, st := range ci.Steps {
+		sci := *ci
+		sci.Steps = nil
+		sci.Ring, sci.RingName, sci.RingBytes, sci.Region = st.Ring, st.PathName, st.RingBytes, st.Label
+		sci.Desc = fmt.Sprintf("%s; step %d of %d (%s): keyring file %s.gpg now holds %s", ci.Desc, i+1, len(ci.Steps), st.Label, st.PathName, st.Ring)
+		v, os_, svs := e.execCase(&sci)
+		out = append(out, stepResult{Label: st.Label, V: v, Obs: os_})
+		for _, x := range svs {
+			x.Replay = rd
+			vs = append(vs, x)
+		}
+	}
+	return out, vs
 }
 
 // obs is what one entry point did.
@@ -414,6 +455,10 @@ func replay(c *core.Ctx, data json.RawMessage) []core.Violation {
 	}
 	defer os.RemoveAll(root)
 	e := newEnv(root)
+	if len(ci.Steps) > 0 {
+		_, vs := e.execSteps(&ci)
+		return vs
+	}
 	_, _, vs := e.execCase(&ci)
 	return vs
 }
@@ -633,6 +678,59 @@ func (x *explorer) emit(canon string, build func() *caseIn) {
 	}
 }
 
+// emitSteps runs one keyring-file sequence if it belongs to this shard.
+func (x *explorer) emitSteps(canon string, build func() *caseIn) {
+	c := x.c
+	if !c.NextMine() {
+		return
+	}
+	ci := build()
+	c.Eval(int64(len(ci.Steps) * len(entries)))
+	c.Distinct(canon)
+	rs, vs := x.e.execSteps(ci)
+	var trace []string
+	for _, r := range rs {
+		c.Outcome(ci.Family + ":" + r.Label + ":" + r.V.Reason)
+		allOK, allErr := true, true
+		for _, o := range r.Obs {
+			if o.Panic != "" {
+				c.Outcome("panic")
+				c.Count("panics", 1)
+			}
+			if o.OK {
+				allErr = false
+			} else {
+				allOK = false
+			}
+		}
+		switch {
+		case r.V.Accept && allOK:
+			trace = append(trace, "accept")
+		case !r.V.Accept && allErr:
+			trace = append(trace, "reject")
+		default:
+			trace = append(trace, "mixed")
+		}
+	}
+	if len(trace) >= 2 {
+		c.Floor(ci.Family + ":" + trace[0] + "-then-" + trace[1])
+	}
+	for _, viol := range vs {
+		c.Violate(viol.Property, viol.Key, viol.What, ci)
+	}
+	if len(vs) == 0 && len(trace) >= 2 && trace[0] != trace[1] {
+		c.Sample(map[string]any{"family": ci.Family, "case": ci.Desc, "pair": ci.Pair, "steps": stepNames(ci), "helm_and_reference_per_step": trace})
+	}
+}
+
+func stepNames(ci *caseIn) []string {
+	var out []string
+	for _, st := range ci.Steps {
+		out = append(out, st.Label+": "+st.PathName+".gpg="+st.Ring)
+	}
+	return out
+}
+
 func (x *explorer) pairOf(ci *caseIn) int {
 	for i, p := range x.f.pairs {
 		if ci.Pair == fmt.Sprintf("%s/k%d", p.Base, p.Key) {
@@ -821,6 +919,60 @@ func (x *explorer) structured() {
 		}
 		if x.want("signed-variant") {
 			x.signedVariants(pi)
+		}
+		if x.want("ring-") {
+			x.ringFiles(pi)
+		}
+	}
+}
+
+// ringFiles: the keyring is a file that can change between two verifications in
+// one process. ring-rewrite: one fixed path holds ring1, everything is verified,
+// the same path is overwritten with ring2, everything is verified again, then
+// ring1 is restored and verified a third time - for every ordered pair of the
+// four keyring contents. ring-copy: the same content under two different paths.
+// Both for the unmodified pair and for a tampered one (one archive bit flipped).
+func (x *explorer) ringFiles(pi int) {
+	f := x.f
+	p := f.pairs[pi]
+	names := ringNames(p.Key)
+	for t := 0; t < 2; t++ {
+		t := t
+		mk := func(family, desc string) *caseIn {
+			ci := x.base(pi, 0, family, desc)
+			ci.Ring, ci.RingName, ci.RingBytes = "", "", nil
+			if t == 1 {
+				pos := len(p.Archive) / 2
+				ci.Archive = append([]byte{}, p.Archive...)
+				ci.Archive[pos] ^= 1
+				ci.Desc += fmt.Sprintf(", archive byte %d bit 0 flipped", pos)
+			} else {
+				ci.Desc += ", unmodified archive and provenance"
+			}
+			return ci
+		}
+		step := func(label string, ri int, path string) ringStep {
+			return ringStep{Label: label, Ring: ringKind(p.Key, names[ri]), PathName: path, RingBytes: f.rings[names[ri]]}
+		}
+		for r1 := 0; r1 < 4; r1++ {
+			for r2 := 0; r2 < 4; r2++ {
+				if r1 == r2 {
+					continue
+				}
+				r1, r2 := r1, r2
+				x.emitSteps(fmt.Sprintf("ring-rewrite|%d|%d|%d|%d", pi, t, r1, r2), func() *caseIn {
+					path := fmt.Sprintf("rewritten-p%d-t%d-%d-%d", pi, t, r1, r2)
+					ci := mk("ring-rewrite", fmt.Sprintf("keyring file rewritten in place: %s -> %s -> %s", ringKind(p.Key, names[r1]), ringKind(p.Key, names[r2]), ringKind(p.Key, names[r1])))
+					ci.Steps = []ringStep{step("first-use", r1, path), step("after-rewrite", r2, path), step("after-restore", r1, path)}
+					return ci
+				})
+			}
+			r1 := r1
+			x.emitSteps(fmt.Sprintf("ring-copy|%d|%d|%d", pi, t, r1), func() *caseIn {
+				ci := mk("ring-copy", fmt.Sprintf("same keyring content (%s) under two different paths", ringKind(p.Key, names[r1])))
+				ci.Steps = []ringStep{step("first-use", r1, fmt.Sprintf("copy-a-p%d-t%d-%d", pi, t, r1)), step("same-content-other-path", r1, fmt.Sprintf("copy-b-p%d-t%d-%d", pi, t, r1))}
+				return ci
+			})
 		}
 	}
 }
